@@ -5,7 +5,7 @@ import json
 import os
 import re
 
-from lib import common, tlc, goharness, tlaparse
+from lib import common, tlc, goharness, findings, tlaparse
 from lib.common import InfraError, Violation
 
 OVERLAY = ["/verif/harness/overlay/asserts/zz_verif_assertdb_test.go"]
@@ -400,7 +400,8 @@ def run(ctx):
     if not tviol and not tmis:
         neg = neg and trace_negative_control(ctx, events)
 
-    if not ev["violations"]:
+    # guards are enforced unless there is a violation that is not a listed known finding (which exits 1 anyway)
+    if not findings.classify(ctx.prop, ev["violations"])[1]:
         if ev["mismatches"]:
             m = ev["mismatches"][0]
             raise InfraError("real code and AssertDB.tla disagree where the statement does not decide (triage): %s -- %s"
